@@ -176,7 +176,20 @@ fn native_args(acc: &mut Acc, wd: &mut Workdir, rng: &mut Rng, rounds: usize, al
             let args: Vec<i64> = (0..k).map(|_| pool(rng)).collect();
             let mut cmd = Command::new(&exe);
             for a in &args {
-                cmd.arg(a.to_string());
+                // decimal, but not always in the shortest form: leading zeros, an explicit plus sign
+                let text = match rng.below(6) {
+                    0 => {
+                        acc.count("arguments_with_leading_zeros");
+                        let digits = a.unsigned_abs().to_string();
+                        format!("{}{}{digits}", if *a < 0 { "-" } else { "" }, "0".repeat(1 + rng.below(3)))
+                    }
+                    1 if *a >= 0 => {
+                        acc.count("arguments_with_plus_sign");
+                        format!("+{a}")
+                    }
+                    _ => a.to_string(),
+                };
+                cmd.arg(text);
             }
             let Ok(r) = native::run_exe(&mut cmd, Duration::from_secs(20)) else { continue };
             acc.evaluations += 1;
